@@ -126,6 +126,11 @@ R7_SRC += 'extern "C" long r7_control(long const& v) { long s = v; for (int n = 
 
 R9_TYPES = [("std::int8_t", 8, True), ("std::uint8_t", 8, False), ("std::int16_t", 16, True), ("std::uint16_t", 16, False), ("int", 32, True), ("unsigned", 32, False),
             ("long long", 64, True), ("unsigned long long", 64, False), ("cnl::int128_t", 128, True), ("cnl::uint128_t", 128, False)]
+# R10: the magnitude of a negative value handed to the digit generator is computed in a type that holds it: for signed
+# types narrower than int, to_chars_non_zero<T> must call to_chars_positive on the PROMOTED -value (an int), never on T
+# (seeded change M-C14-6: static_cast<number>(-value) maps -128 back to -128)
+R10_TYPES = [("std::int8_t", "signed char"), ("std::int16_t", "short")]
+R10_SRC = "".join('extern "C" std::to_chars_result r10_%d(char* p, char* l, %s v) { return cnl::to_chars(p, l, v); }\n' % (i, t) for i, (t, _) in enumerate(R10_TYPES))
 R9_SRC = "".join('extern "C" char* r9_%d(char* p, char* l, %s const& v, int b) { return cnl::_impl::to_chars_natural(p, l, v, b); }\n' % (i, t) for i, (t, w, sg) in enumerate(R9_TYPES))
 
 
@@ -212,7 +217,7 @@ FORBIDDEN = [(r"^_ZNSolsE[a-z]$", "std::ostream::operator<<(arithmetic)"), (r"^_
 def run(tier, seed, work):
     r = report.Run(PROP, tier, seed, "other")
     src = os.path.join(work, "t.cpp")
-    open(src, "w").write(SRC + R5_SRC + R6_SRC + R9_SRC)
+    open(src, "w").write(SRC + R5_SRC + R6_SRC + R9_SRC + R10_SRC)
     out = os.path.join(work, "t.ll")
     rc, so, se, cmd = tc.clang_ll(src, out, "o1ni")
     if rc != 0:
@@ -369,6 +374,25 @@ def run(tier, seed, work):
         n_r9 += 1
         for pr in probs:
             r.violation("R9/" + t, "cnl::_impl::to_chars_natural<%s>: %s" % (t, pr), {"type": t, "ir": mod.functions[nat[0]].text()})
+    # R10
+    n_r10 = 0
+    for i, (t, spelled) in enumerate(R10_TYPES):
+        e = "r10_%d" % i
+        nz = [x for x in reach(e) if re.search(r"cnl::_impl::to_chars_non_zero<.*>\(char\*, char\*, %s const&, int\)" % re.escape(spelled), dem.get(x, ""))]
+        if len(nz) != 1:
+            r.broke("R10: to_chars_non_zero for %s not found (%d candidates)" % (t, len(nz)))
+            continue
+        pos = [dem[x] for x in edges.get(nz[0], ()) if "cnl::_impl::to_chars_positive<" in dem.get(x, "")]
+        if not pos:
+            r.broke("R10: to_chars_non_zero<%s> calls no to_chars_positive" % t)
+            continue
+        n_r10 += 1
+        small = {"signed char": 8, "short": 16} if "8" not in t else {"signed char": 8}
+        vts = [m_.group(1) for m_ in (re.search(r"\(char\*, char\*, (.+?) const&, int\)", d_) for d_ in pos) if m_]
+        # a callee whose value type can hold 2^(w-1): anything but a signed type no wider than T
+        if vts and all(v_ in small for v_ in vts):
+            r.violation("R10/" + t, "cnl::_impl::to_chars_non_zero<%s> calls to_chars_positive only on signed types no wider than itself: the magnitude -value of a negative %s is narrowed back to %s, which cannot hold %d (callees: %s)"
+                        % (t, t, t, 128 if "8" in t else 32768, "; ".join(sorted(pos))[:300]), {"type": t, "callees": sorted(pos)})
     entries = [n for n in mod.functions if n.startswith("e_")]
     ok_entries, samples = 0, []
     for e in sorted(entries):
@@ -449,11 +473,12 @@ def run(tier, seed, work):
     common.floor_check(r, "R7 loops inspected", n_r7_loops, 20)
     common.floor_check(r, "R8 room tests inspected", n_r8, 20)
     common.floor_check(r, "R9 digit-generator steps read", n_r9, len(R9_TYPES))
+    common.floor_check(r, "R10 negative-magnitude instances", n_r10, len(R10_TYPES))
     r.coverage = {
         "explanation": "Decided: the last sentence (the fixed-capacity entry points format through cnl::to_chars on the same value: reachability, forbidden-formatter and argument/derivation rules on -O1 -fno-inline IR) and one structural necessary condition of the sign/magnitude clause (R5: the working significand type of every to_chars<Rep> instantiation represents all of Rep). Digit generation, truncation direction and exponents are not decided.",
         "evaluations": len(entries) + n_static + n_r5 + n_r6, "distinct_nontrivial": ok_entries + n_static + n_r5 + n_r6,
         "rule": "non-trivial = entry point for which R1 and R2 hold, or to_chars_static instantiation for which R3 was evaluated",
-        "r5_instances": n_r5, "r6_generators": n_r6, "r7_descale_instances": n_r7, "r8_room_tests": n_r8, "r9_generator_steps": n_r9, "r7_loops": n_r7_loops, "entry_points": len(entries) - 1, "entry_points_ok": ok_entries, "to_chars_static_instances": n_static,
+        "r5_instances": n_r5, "r6_generators": n_r6, "r7_descale_instances": n_r7, "r8_room_tests": n_r8, "r9_generator_steps": n_r9, "r10_negative_magnitude": n_r10, "r7_loops": n_r7_loops, "entry_points": len(entries) - 1, "entry_points_ok": ok_entries, "to_chars_static_instances": n_static,
         "samples": samples[:6], "exhaustive": False,
     }
     return r.finish()
